@@ -6,8 +6,8 @@
       x_max = (in_center + filter_radius).ceil().min(in_size as f64) as u32
       window_size = (filter_radius.ceil() as usize * 2 + 1).min(in_size)       (saturating)
 
-  `fl : ℚ → ℚ` rounds the one subtraction / addition; it is only assumed monotone and exact on integers
-  (IEEE round-to-nearest below 2^53).  `c` is the centre *as computed* (whatever rounding produced it),
+  `fl : ℚ → ℚ` rounds the one subtraction / addition; it is only assumed monotone and exact on the few integers
+  named in each statement (IEEE round-to-nearest is exact on all integers up to 2^53: `Fir.Ieee.flP_int`).  `c` is the centre *as computed* (whatever rounding produced it),
   `r ≥ 0` the radius as computed.
 -/
 import Mathlib.Algebra.Order.Floor.Ring
@@ -25,35 +25,39 @@ def xMaxOf (fl : ℚ → ℚ) (c r : ℚ) (inSize : ℕ) : ℕ := min ⌈fl (c +
 /-- `window_size` -/
 def windowSizeOf (r : ℚ) (inSize : ℕ) : ℕ := min (⌈r⌉.toNat * 2 + 1) inSize
 
-theorem floor_ge_of_int (fl : ℚ → ℚ) (hfl : Monotone fl) (hint : ∀ n : ℤ, fl n = n) (x : ℚ) (n : ℤ) (h : (n : ℚ) ≤ x) :
+theorem floor_ge_of_int (fl : ℚ → ℚ) (hfl : Monotone fl) (x : ℚ) (n : ℤ) (hn : fl n = n) (h : (n : ℚ) ≤ x) :
     n ≤ ⌊fl x⌋ := by
   apply Int.le_floor.mpr
   have := hfl h
-  rwa [hint] at this
+  rwa [hn] at this
 
-theorem ceil_le_of_int (fl : ℚ → ℚ) (hfl : Monotone fl) (hint : ∀ n : ℤ, fl n = n) (x : ℚ) (n : ℤ) (h : x ≤ (n : ℚ)) :
+theorem ceil_le_of_int (fl : ℚ → ℚ) (hfl : Monotone fl) (x : ℚ) (n : ℤ) (hn : fl n = n) (h : x ≤ (n : ℚ)) :
     ⌈fl x⌉ ≤ n := by
   apply Int.ceil_le.mpr
   have := hfl h
-  rwa [hint] at this
+  rwa [hn] at this
 
-/-- the unclamped span is at most `2⌈r⌉ + 1` -/
-theorem span_int (fl : ℚ → ℚ) (hfl : Monotone fl) (hint : ∀ n : ℤ, fl n = n) (c r : ℚ) :
+/-- the unclamped span is at most `2⌈r⌉ + 1`; `fl` only has to be exact on the two integers
+    `⌈c⌉ + ⌈r⌉` and `⌊c⌋ - ⌈r⌉` -/
+theorem span_int (fl : ℚ → ℚ) (hfl : Monotone fl) (c r : ℚ)
+    (h1 : fl ((⌈c⌉ + ⌈r⌉ : ℤ) : ℚ) = ((⌈c⌉ + ⌈r⌉ : ℤ) : ℚ)) (h2 : fl ((⌊c⌋ - ⌈r⌉ : ℤ) : ℚ) = ((⌊c⌋ - ⌈r⌉ : ℤ) : ℚ)) :
     ⌈fl (c + r)⌉ - ⌊fl (c - r)⌋ ≤ 2 * ⌈r⌉ + 1 := by
-  have h1 : ⌈fl (c + r)⌉ ≤ ⌈c⌉ + ⌈r⌉ := by
-    apply ceil_le_of_int fl hfl hint
+  have h1' : ⌈fl (c + r)⌉ ≤ ⌈c⌉ + ⌈r⌉ := by
+    apply ceil_le_of_int fl hfl _ _ h1
     push_cast
     linarith [Int.le_ceil c, Int.le_ceil r]
-  have h2 : ⌊c⌋ - ⌈r⌉ ≤ ⌊fl (c - r)⌋ := by
-    apply floor_ge_of_int fl hfl hint
+  have h2' : ⌊c⌋ - ⌈r⌉ ≤ ⌊fl (c - r)⌋ := by
+    apply floor_ge_of_int fl hfl _ _ h2
     push_cast
     linarith [Int.floor_le c, Int.le_ceil r]
   have h3 : ⌈c⌉ ≤ ⌊c⌋ + 1 := Int.ceil_le_floor_add_one c
   omega
 
 /-- **`x_min ≤ x_max`** (so `bound_end - bound_start` cannot underflow and `Bounds.window` applies) as
-    soon as the radius is non-negative and the window starts inside the image -/
-theorem xmin_le_xmax (fl : ℚ → ℚ) (hfl : Monotone fl) (hint : ∀ n : ℤ, fl n = n) (c r : ℚ) (inSize : ℕ)
+    soon as the radius is non-negative and the window starts inside the image; `fl` only has to be exact on
+    the integer `in_size` -/
+theorem xmin_le_xmax (fl : ℚ → ℚ) (hfl : Monotone fl) (c r : ℚ) (inSize : ℕ)
+    (hsz : fl ((inSize : ℤ) : ℚ) = ((inSize : ℤ) : ℚ))
     (hr : 0 ≤ r) (hin : c - r ≤ inSize) : xMinOf fl c r ≤ xMaxOf fl c r inSize := by
   unfold xMinOf xMaxOf
   apply le_min
@@ -61,20 +65,20 @@ theorem xmin_le_xmax (fl : ℚ → ℚ) (hfl : Monotone fl) (hint : ∀ n : ℤ,
     have h1 : fl (c - r) ≤ fl (c + r) := hfl (by linarith)
     exact (Int.floor_le_floor h1).trans (Int.floor_le_ceil _)
   · have h : ⌊fl (c - r)⌋ ≤ (inSize : ℤ) := by
-      have := hfl hin
-      have e : fl ((inSize : ℕ) : ℚ) = inSize := by
-        have := hint (inSize : ℤ); simpa using this
-      rw [e] at this
-      exact Int.floor_le_iff.mpr (by push_cast; linarith)
+      have hin' : c - r ≤ ((inSize : ℤ) : ℚ) := by push_cast; exact hin
+      have := hfl hin'
+      rw [hsz] at this
+      exact Int.floor_le_iff.mpr (by linarith)
     omega
 
 /-- **every window fits into `window_size` slots**: `x_max - x_min ≤ min(2⌈r⌉ + 1, in_size)`, so
     `coeffs.resize(cur_index + window_size, 0.)` never truncates the weights just pushed and
     `get_chunks`' `values[0..bound.size]` stays inside its chunk - also with the clamp to `in_size` -/
-theorem span_le_window (fl : ℚ → ℚ) (hfl : Monotone fl) (hint : ∀ n : ℤ, fl n = n) (c r : ℚ) (inSize : ℕ) (hr : 0 ≤ r) :
+theorem span_le_window (fl : ℚ → ℚ) (hfl : Monotone fl) (c r : ℚ) (inSize : ℕ) (hr : 0 ≤ r)
+    (h1 : fl ((⌈c⌉ + ⌈r⌉ : ℤ) : ℚ) = ((⌈c⌉ + ⌈r⌉ : ℤ) : ℚ)) (h2 : fl ((⌊c⌋ - ⌈r⌉ : ℤ) : ℚ) = ((⌊c⌋ - ⌈r⌉ : ℤ) : ℚ)) :
     xMaxOf fl c r inSize - xMinOf fl c r ≤ windowSizeOf r inSize := by
   unfold xMinOf xMaxOf windowSizeOf
-  have hs := span_int fl hfl hint c r
+  have hs := span_int fl hfl c r h1 h2
   have hr' : 0 ≤ ⌈r⌉ := Int.ceil_nonneg hr
   have e : ((⌈r⌉.toNat : ℕ) : ℤ) = ⌈r⌉ := Int.toNat_of_nonneg hr'
   apply le_min
